@@ -556,6 +556,25 @@ func originsFor(c Cfg) (match, miss []string) {
 		}
 		addX(other + "://" + host + port)
 		addX(pp.Scheme + "s://" + host + port)
+		// what sloppy non-browser clients send: trailing slash, a path, an upper-case
+		// letter, an explicit default port, surrounding space — never denoted by the pattern
+		if host == "" || pp.Scheme == "" {
+			continue // a planted malformed pattern: nothing sensible to derive
+		}
+		full := pp.Scheme + "://" + host + port
+		addX(full + "/")
+		addX(full + "/path")
+		addX(strings.ToUpper(full[:1]) + full[1:])
+		addX(pp.Scheme + "://" + strings.ToUpper(host[:1]) + host[1:] + port)
+		if port == "" && pp.Port != "*" {
+			switch pp.Scheme {
+			case "https":
+				addX(full + ":443")
+			case "http":
+				addX(full + ":80")
+			}
+		}
+		addX(" " + full)
 	}
 	// near-misses of one pattern may be matches of another: re-classify with
 	// the independent matcher so that the names stay honest
